@@ -15,8 +15,16 @@
 (* topology carries no risk groups, what it demands cannot be decided.)  In the same spirit, how a batch is    *)
 (* written - route objects with indices starting at 0 or elsewhere and listed in any order, a line hop named   *)
 (* by one element of its arc or element by element, a service file or PathRequest objects built through the   *)
-(* API - and what was computed before in the same process are no part of a batch: the answer to a batch is a  *)
-(* function of the graph and of the batch alone.                                                              *)
+(* API, an include list opened by the request's own source transceiver and / or closed by its own destination *)
+(* transceiver (whatever their hop type: the clean-up removes the two end points silently, each with its own  *)
+(* hop type), the same request objects handed to the clean-up and to the router a second time - and what was  *)
+(* computed before in the same process are no part of a batch: the answer to a batch is a function of the     *)
+(* graph and of the batch alone.                                                                              *)
+(* A synchronisation vector may be written `relaxable: true` (relax[k] = 1).  C12 does not say what that      *)
+(* allows - the documentation says that only `false` is supported, the data model that a relaxable vector may *)
+(* be given up when it cannot be met - so nothing is demanded FOR such a vector: neither that its requests    *)
+(* are disjoint nor that the computation stops when they cannot be.  But whatever is decided for it, every    *)
+(* vector that is NOT relaxable keeps all its rights, also when it shares requests with a relaxable one.      *)
 (*                                                                                                            *)
 (* Three layers, all pure TLA+ and independent of networkx (1 and 2 here, 3 in RoutingModel):                *)
 (*   1. the ORACLE  - simple paths by bounded recursion, include satisfaction as ordered subsequence,         *)
@@ -100,7 +108,7 @@ KeepKnown(r, k) == IF k > Len(r.inc) THEN <<>>
 Clean(r) == LET keep == KeepKnown(r, 1)
             IN  [s |-> r.s, d |-> r.d, inc |-> [j \in 1..Len(keep) |-> r.inc[keep[j]]],
                  strict |-> [j \in 1..Len(keep) |-> r.strict[keep[j]]]]
-CleanBatch(b) == [reqs |-> [i \in 1..Len(b.reqs) |-> Clean(b.reqs[i])], groups |-> b.groups]
+CleanBatch(b) == [reqs |-> [i \in 1..Len(b.reqs) |-> Clean(b.reqs[i])], groups |-> b.groups, relax |-> b.relax]
 
 Feasible(P, inc) == {p \in P : Crosses(p, inc)}
 MinLen(G, P)     == SetMin({PathLen(G, p) : p \in P})
@@ -114,7 +122,7 @@ Verdict(r, P) ==
   ELSE IF Feasible(P, StrictPart(r)) = {} THEN "NO_PATH_WITH_CONSTRAINT"   \* a STRICT hop cannot be met
   ELSE "UNDECIDED"          \* mixed list, the STRICT hops alone could be met: the text does not arbitrate
 
-\* batches: [reqs |-> <<r1, ...>>, groups |-> <<<<i, j>>, ...>>]
+\* batches: [reqs |-> <<r1, ...>>, groups |-> <<<<i, j>>, ...>>, relax |-> <<0 / 1 per group>>]
 GroupSet(b, k) == SeqRange(b.groups[k])
 Grouped(b)     == UNION {GroupSet(b, k) : k \in 1..Len(b.groups)}
 MustDiffer(b, i, j) == i # j /\ \E k \in 1..Len(b.groups) : i \in GroupSet(b, k) /\ j \in GroupSet(b, k)
@@ -123,6 +131,13 @@ SinglePair(b)  == /\ Len(b.groups) >= 1
                   /\ Cardinality(GroupSet(b, 1)) = 2
 \* a group stated twice (same members) is one group: deduplicate_disjunctions
 OneGroup(b)    == Cardinality({GroupSet(b, k) : k \in 1..Len(b.groups)}) = 1
+
+\* the batch without its relaxable vectors: what must hold whatever `relaxable` is taken to mean
+RECURSIVE PickHard(_, _)
+PickHard(b, k) == IF k > Len(b.groups) THEN <<>>
+                  ELSE (IF b.relax[k] = 0 THEN <<b.groups[k]>> ELSE <<>>) \o PickHard(b, k + 1)
+Hard(b)        == LET h == PickHard(b, 1) IN [reqs |-> b.reqs, groups |-> h, relax |-> [k \in 1..Len(h) |-> 0]]
+AllHard(b)     == \A k \in 1..Len(b.groups) : b.relax[k] = 0
 
 \* which routes a grouped request may take:
 \*   "strong": a request with a STRICT hop crosses its whole list (the code's reading: one STRICT makes the list STRICT)
@@ -183,16 +198,20 @@ BlockingReason(f, x)     == ~Routed(x) => /\ x.st \in NoPathReasons
                                           /\ (x.st = "NO_PATH") <=> (f.P = {})
 
 \* --- C12
+\* (the vectors that are not relaxable: see the head of the module)
 GroupsLinkDisjoint(G, b, o) ==
-  o.err = 0 => \A i, j \in 1..Len(b.reqs) :
-                  (MustDiffer(b, i, j) /\ Routed(o.res[i]) /\ Routed(o.res[j]))
-                     => ~SurelyOverlapping(G, o.res[i].p, o.res[j].p)
+  LET h == Hard(b)
+  IN  o.err = 0 => \A i, j \in 1..Len(b.reqs) :
+                      (MustDiffer(h, i, j) /\ Routed(o.res[i]) /\ Routed(o.res[j]))
+                         => ~SurelyOverlapping(G, o.res[i].p, o.res[j].p)
 GroupedAreRouted(b, o)   == o.err = 0 => \A i \in Grouped(b) : Routed(o.res[i])
 ErrorOnlyForGroups(b, o) == o.err = 1 => b.groups # <<>>
 \* completeness for one pair: an error is only allowed when no disjoint combination honours the route constraints
 PairComplete(G, b, fx, o) == (o.err = 1 /\ SinglePair(b)) => Solutions(G, b, fx, "strong", TRUE) = {}
 \* and an error is mandatory when not even the STRICT hops can be honoured disjointly (any group shape)
-ErrorWhenNoSolution(G, b, fx, o) == (b.groups # <<>> /\ Solutions(G, b, fx, "weak", FALSE) = {}) => o.err = 1
+\* (counting the vectors that are not relaxable only: giving up a relaxable vector is not an error)
+ErrorWhenNoSolution(G, b, fx, o) ==
+  LET h == Hard(b) IN (h.groups # <<>> /\ Solutions(G, h, fx, "weak", FALSE) = {}) => o.err = 1
 
 \* names of the clauses request i fails (search-free part / oracle part), and batch-level clauses; b is cleaned
 StructuralViol(G, b, o, i) ==
